@@ -58,7 +58,7 @@ def r1_aligned_views(ctx):
     c = sym.canon(inline_locals(sv, {k: v for k, v in env.items() if k != "set_values"}))
     ok = c == sym.canon(sym.parse_expr("{name: np.concatenate([getattr(a, name) for a in values]) for name in set().union(*(a._set_values.keys() for a in values))}"))
     ctx.ob(af.where, "concatenate: a field assigned in any operand is merged from every operand's current value of it (assigned value, or the field read from its buffer)", ok, c[:200],
-           key="C05-R1|concatenate|overlay")
+           key="C05-R1|concatenate|overlay", definite=True)
     cn = env.get("computed_names")
     ok = cn is not None and sym.canon(cn) == sym.canon(sym.parse_expr("set.intersection(*(set(a._computed_values.keys()) for a in values)) - set_names"))
     ctx.ob(af.where, "concatenate: cached fields are merged only if cached in every operand and not assigned in any", ok, u(cn) if cn is not None else "", key="C05-R1|concatenate|cache-names")
